@@ -34,7 +34,8 @@ import pkgutil
 import subprocess
 import sys
 
-from ..common import ERR, FAIL, PASS, PTA_SRC, VERIF_DIR, graph_snapshot, remove_scratch, run_rule, scratch_dir, write_tree
+from ..common import ERR, FAIL, PASS, PTA_SRC, VERIF_DIR, graph_snapshot, remove_scratch, scratch_dir, write_tree
+from ..common import run_rule as _run_rule
 from ..e2 import generic_canon
 from ..engine import Result
 from ..impl import ACCESS_METHOD, IMPORT_METHOD, build, plan_graph_shards, shard_graphs
@@ -52,6 +53,14 @@ for _m in pkgutil.walk_packages(pytestarch.__path__, "pytestarch."):
     importlib.import_module(_m.name)
 
 from ..hidden import GlobalState  # noqa: E402
+
+def run_rule(rule, evaluable):
+    """(PASS, '') | (FAIL, full message) | (ERR, exception type): the property speaks about verdict
+    and message; for configuration / lookup errors only the type is compared (their text may
+    legitimately list things in an unspecified order)."""
+    g = _run_rule(rule, evaluable)
+    return g if g[0] != ERR else (ERR, g[1].split(":")[0])
+
 
 ID = "C15"
 RULE = (
